@@ -1072,7 +1072,8 @@ func (r *Raft) sendAppendEntries(id string, address string, numResponses *int) {
 
 	// If the majority of cluster acknowledges the request, this node is a legitimate leader.
 	// Try to apply pending read-only operations.
-	if numResponses != nil {
+	// Non-voting members do not take part in elections, their responses say nothing about leadership.
+	if numResponses != nil && r.isVoter(id) {
 		*numResponses += 1
 		if r.hasQuorum(*numResponses) {
 			r.tryApplyReadOnlyOperations()
